@@ -8,10 +8,12 @@ import (
 	"fmt"
 	"strings"
 	"testing"
+	"time"
 
 	"github.com/MixinNetwork/mixin/common"
 	"github.com/MixinNetwork/mixin/config"
 	"github.com/MixinNetwork/mixin/crypto"
+	"github.com/MixinNetwork/mixin/kernel/internal/clock"
 	"pgregory.net/rapid"
 	kit "verifkit"
 )
@@ -115,8 +117,9 @@ func vpC29JudgeElection(nodes []*Node, epoch uint64, accepted []*CNode, now uint
 }
 
 func TestVP_C29_election(t *testing.T) {
-	c := kit.New(t, "C29", "rapid: G-membership histories (7..16 genesis quick / ..50 thorough, 0..10 lifecycle operations, equal genesis timestamps) assembled three times (production loader from two shuffled record orders + direct), 8 boundary-biased instants each with >=7 accepted nodes; all five electable operations and six non-electable ones; non-trivial = >=8 accepted and day+op wraps the modulus; distinct by (history salt, now)")
-	c.Require("removal-possible", "wraps", "size>=8", "non-genesis-records", "removal-refused")
+	c := kit.New(t, "C29", "rapid: G-membership histories (7..16 genesis quick / ..50 thorough, 0..10 lifecycle operations, equal genesis timestamps) assembled three times (production loader from two shuffled record orders + direct), 8 boundary-biased instants each with >=7 accepted nodes; before each judgement the first node lists its working members with the local clock at the instant, as its cache queue loop does on every pass, the other two stay idle; all five electable operations and six non-electable ones; non-trivial = >=8 accepted and day+op wraps the modulus; distinct by (history salt, now)")
+	c.Require("removal-possible", "wraps", "size>=8", "non-genesis-records", "removal-refused", "busy-node-predicts-removal")
+	t.Cleanup(clock.Reset)
 	kit.SetChecks(kit.N(1200, 60000))
 	maxG := 16
 	if kit.Thorough() {
@@ -145,8 +148,22 @@ func TestVP_C29_election(t *testing.T) {
 				c.Class("fewer-than-7-accepted-skipped")
 				continue
 			}
-			wraps := vpC29JudgeElection(nodes, h.Epoch, m.Accepted, now, fail)
 			classes := []string{}
+			// the first node is a running one: its loops list the working members
+			// (the cache queue does on every pass) with the local clock at the
+			// instant; the other two only answer the election
+			clock.Reset()
+			clock.MockDiff(time.Unix(0, int64(now)).Sub(time.Now()))
+			rn := nodes[0].GetRemovingOrSlashingNode(m.Accepted[0].IdForNetwork)
+			working := nodes[0].ListWorkingAcceptedNodes(now)
+			clock.Reset()
+			if rn != nil {
+				classes = append(classes, "busy-node-predicts-removal")
+				if len(working) != len(m.Accepted)-1 {
+					classes = append(classes, "busy-node-working-list-other-size")
+				}
+			}
+			wraps := vpC29JudgeElection(nodes, h.Epoch, m.Accepted, now, fail)
 			if wraps {
 				classes = append(classes, "wraps")
 			}
